@@ -47,6 +47,7 @@ type world struct {
 	base  names // A B C GAS X Z, G1..G3
 	fake  *block.Block
 	group map[string][]string // contract name -> compressed group keys
+	mfst  map[string][]byte   // extension "facts": manifests with replaced groups
 }
 
 func newWorld() (*world, error) {
@@ -157,10 +158,16 @@ func newWorld() (*world, error) {
 // "T" = LoadScript of (a copy of) one shared dynamic script, "V","W" = run() of
 // the contracts that also have verify(prog); Entry "V"/"W": the chain starts in
 // the Verification trigger with that contract's verify(prog) as the entry context.
+//
+// Extension "facts" (ext_facts_test.go): Muts = changes of the facts scopes are
+// evaluated over, made DURING the execution by a contract of the chain
+// (ContractManagement.update of its own manifest groups / destroy, optionally
+// rolled back by an exception caught in the calling contract).
 type chain struct {
-	Steps []string `json:"steps"`
-	NoRS  bool     `json:"no_read_states"`
-	Entry string   `json:"entry,omitempty"`
+	Steps []string   `json:"steps"`
+	NoRS  bool       `json:"no_read_states"`
+	Entry string     `json:"entry,omitempty"`
+	Muts  []mutation `json:"mutations,omitempty"`
 }
 
 func (c chain) String() string {
@@ -173,6 +180,9 @@ func (c chain) String() string {
 	}
 	if c.NoRS {
 		s += "/noRS"
+	}
+	for _, m := range c.Muts {
+		s += m.String()
 	}
 	return s
 }
@@ -254,6 +264,7 @@ type frame struct {
 	Groups []string
 	Req    callflag.CallFlag // flags requested by the caller
 	Eff    callflag.CallFlag // effective flags
+	Loaded facts             // extension "facts": the facts at the moment this context was loaded
 }
 
 func (f *frame) isU() bool { return isUKind(f.Kind) }
@@ -280,6 +291,10 @@ type expect struct {
 	Sit   string // situation class (for the coverage statistics)
 	Cls   string // coarse outcome class
 	Desc  string
+	// extension "facts" (nil/zero for every other chain)
+	Facts facts  // manifest groups of every deployed contract at the moment of this check (absent = destroyed)
+	Seg   int    // checks with the same Seg run in the same context with nothing executed in between
+	Rel   string // relation of the executing context to the latest change
 }
 
 // built is a chain compiled once and reused for every signer batch.
@@ -300,6 +315,7 @@ type builder struct {
 	sBody  map[int][]byte // ordinal -> code of that copy of the entry script
 	tBody  map[int][]byte // ordinal -> code of that copy of the shared dynamic script
 	tBytes []byte         // the shared dynamic script once assembled
+	factsBuilder
 }
 
 func keyBytes(i int) []byte { return chainx.Acc(i).PublicKey().Bytes() }
@@ -379,6 +395,8 @@ func emitVal(w *io.BinWriter, v any) {
 		emit.Opcodes(w, opcode.PACK)
 	case []byte:
 		emit.Bytes(w, x)
+	case nil:
+		emit.Opcodes(w, opcode.PUSHNULL)
 	case int:
 		emit.Int(w, int64(x))
 	case string:
@@ -396,29 +414,52 @@ func (bl *builder) body(i int) any {
 	f := b.Frames[i]
 	next := i + 1
 	if f.isU() {
+		bl.enter(i)
 		pre, post := bl.queries(i)
 		prog := []any{}
 		for _, q := range pre {
 			prog = append(prog, []any{chainx.OpCheckWitness, q.Val})
-			b.Expect = append(b.Expect, expect{Frame: i, Q: q})
+			bl.expect(i, q)
+		}
+		mut := bl.mutAt(i)
+		if mut != nil {
+			// the contract changes its own facts, then asks everything again in the same context
+			prog = append(prog, bl.mutOp(f, mut))
+			bl.apply(f, mut)
+			for _, q := range pre {
+				q.Label += afterChange
+				prog = append(prog, []any{chainx.OpCheckWitness, q.Val})
+				bl.expect(i, q)
+			}
 		}
 		if next < len(b.Frames) {
 			nf := b.Frames[next]
+			undo := bl.beforeCall(next)
+			var call []any
 			switch {
 			case nf.isU():
-				prog = append(prog, []any{chainx.OpRun, nf.Hash.BytesBE(), int(nf.Req), bl.body(next)})
+				call = []any{chainx.OpRun, nf.Hash.BytesBE(), int(nf.Req), bl.body(next)}
 			case nf.isDyn():
 				script, args := bl.dynLoad(next)
-				prog = append(prog, []any{chainx.OpLoadScript, script, int(nf.Req), args})
+				call = []any{chainx.OpLoadScript, script, int(nf.Req), args}
 			case nf.Kind == "G":
 				x := b.Frames[next+1]
-				prog = append(prog, []any{chainx.OpCall, nf.Hash.BytesBE(), "transfer", int(callflag.All),
-					[]any{f.Hash.BytesBE(), x.Hash.BytesBE(), 0, bl.body(next + 1)}})
+				call = []any{chainx.OpCall, nf.Hash.BytesBE(), "transfer", int(callflag.All),
+					[]any{f.Hash.BytesBE(), x.Hash.BytesBE(), 0, bl.body(next + 1)}}
 			}
+			if undo {
+				// the callee throws after its change: caught here, the change is rolled back
+				call = []any{chainx.OpTry, []any{call}, []any{}}
+			}
+			prog = append(prog, call)
+			bl.afterCall(undo)
+		}
+		if mut != nil && mut.Throw {
+			return append(prog, []any{chainx.OpThrow})
 		}
 		for _, q := range post {
 			prog = append(prog, []any{chainx.OpCheckWitness, q.Val})
-			b.Expect = append(b.Expect, expect{Frame: i, Q: q})
+			bl.expect(i, q)
 		}
 		return prog
 	}
@@ -510,6 +551,7 @@ func assembleTwin(body0 []byte, copies map[int][]byte, own bool) []byte {
 // dynamic script): checks, the next step of the chain, checks.
 func (bl *builder) code(i int) []byte {
 	b := bl.b
+	bl.enter(i)
 	pre, post := bl.queries(i)
 	next := i + 1
 	w := io.NewBufBinWriter()
@@ -517,13 +559,14 @@ func (bl *builder) code(i int) []byte {
 		emitVal(w.BinWriter, q.Val)
 		emit.Syscall(w.BinWriter, interopnames.SystemRuntimeCheckWitness)
 		emit.Opcodes(w.BinWriter, opcode.DROP)
-		b.Expect = append(b.Expect, expect{Frame: i, Q: q})
+		bl.expect(i, q)
 	}
 	for _, q := range pre {
 		cw(q)
 	}
 	if next < len(b.Frames) {
 		nf := b.Frames[next]
+		bl.beforeCall(next)
 		switch {
 		case nf.isU():
 			emitVal(w.BinWriter, []any{bl.body(next)})
@@ -546,6 +589,7 @@ func (bl *builder) code(i int) []byte {
 			emit.Syscall(w.BinWriter, interopnames.SystemContractCall)
 		}
 		emit.Opcodes(w.BinWriter, opcode.DROP)
+		bl.afterCall(false)
 	}
 	for _, q := range post {
 		cw(q)
@@ -593,6 +637,9 @@ func (w *world) build(c chain) (*built, error) {
 	}
 	b.Flags = b.Frames[0].Eff
 	bl := &builder{w: w, b: b, ext: c.family() != "base", sBody: map[int][]byte{}, tBody: map[int][]byte{}}
+	if err := bl.initFacts(); err != nil {
+		return nil, err
+	}
 	if c.Entry != "" {
 		// the invocation script of the witness pushes the program verify() interprets
 		iw := io.NewBufBinWriter()
@@ -612,6 +659,9 @@ func (w *world) build(c chain) (*built, error) {
 		b.N.H[k] = v
 	}
 	b.N.H["E"] = b.Frames[0].Hash
+	if len(c.Muts) > 0 {
+		b.N.H["M"] = b.Frames[c.Muts[0].At].Hash // the (first) contract whose facts change
+	}
 	b.N.H["L"] = w.base.H["X"]
 	for _, f := range b.Frames {
 		if f.Kind == "L" || f.Kind == "T" {
@@ -641,6 +691,10 @@ func (w *world) build(c chain) (*built, error) {
 		}
 		e.Cls = fmt.Sprintf("vm:%sin=%s:depth=%d%s:", trig, f.Kind, min(e.Frame, 2), tags)
 		e.Sit = fmt.Sprintf("%s%s<%s@%d%s rs=%v q=%s", trig, f.Kind, callerKind(b, e.Frame), min(e.Frame, 2), tags, f.Eff.Has(callflag.ReadStates), queryKind(e.Q.Label))
+		if e.Rel != "" {
+			e.Cls = fmt.Sprintf("vm:facts:%s:in=%s:", e.Rel, f.Kind)
+			e.Sit = fmt.Sprintf("facts:%s %s", e.Rel, e.Sit)
+		}
 	}
 	return b, nil
 }
@@ -653,6 +707,10 @@ type obs struct {
 	Res   int // 0 false, 1 true, 2 error
 	Err   string
 	Flags callflag.CallFlag
+	// extension "facts": what ContractManagement holds at this moment (read through the
+	// execution's own DAO) for the executing and the calling script; nil = no such contract
+	HaveG       bool
+	CurG, CallG []string
 }
 
 var cwID = interopnames.ToID([]byte(interopnames.SystemRuntimeCheckWitness))
@@ -686,6 +744,9 @@ func (w *world) invoke(b *built, signers []transaction.Signer, cont bool) (trace
 			return orig(v, id)
 		}
 		o := obs{Cur: v.GetCurrentScriptHash(), Flags: v.Context().GetCallFlags()}
+		if len(b.Chain.Muts) > 0 {
+			o.HaveG, o.CurG, o.CallG = true, storedGroups(ic, o.Cur), storedGroups(ic, v.GetCallingScriptHash())
+		}
 		if v.Estack().Len() > 0 {
 			if bs, e := v.Estack().Peek(0).Item().TryBytes(); e == nil {
 				o.Q = append([]byte{}, bs...)
@@ -748,6 +809,7 @@ type mismatch struct {
 
 type evalStats struct {
 	Evals, True, False, Undecided int
+	FactsDep                      int // extension "facts": verdicts that differ from the one over the groups at context load
 	Contexts                      map[string]struct{}
 	Classes                       map[string]struct{}
 }
@@ -773,11 +835,11 @@ func judge(b *built, ref []signer, ncfg int, trace []obs, state vmstate.State, f
 		}
 		o := trace[k]
 		f := b.Frames[e.Frame]
-		w := where{Current: party{Hash: f.Hash, Groups: f.Groups}, ByEntry: e.Frame <= 1}
+		w := where{Current: party{Hash: f.Hash, Groups: e.groupsOf(f)}, ByEntry: e.Frame <= 1}
 		desc := e.Desc
 		if e.Frame > 0 {
 			c := b.Frames[e.Frame-1]
-			w.Calling = &party{Hash: c.Hash, Groups: c.Groups}
+			w.Calling = &party{Hash: c.Hash, Groups: e.groupsOf(c)}
 		}
 		slot := e.Slot
 		if slot >= ncfg {
@@ -800,8 +862,22 @@ func judge(b *built, ref []signer, ncfg int, trace []obs, state vmstate.State, f
 			out = append(out, mismatch{What: "argument-differs", Frame: e.Frame, Query: e.Q.Label, Slot: slot, Got: fmt.Sprintf("%x", o.Q), Want: e.Q.Acc.StringBE(), Where: desc})
 			continue
 		}
+		if o.HaveG {
+			// the model's idea of what ContractManagement holds must be the chain's
+			var cg []string
+			if w.Calling != nil {
+				cg = w.Calling.Groups
+			}
+			if got, want := groupList(o.CurG)+" / "+groupList(o.CallG), groupList(w.Current.Groups)+" / "+groupList(cg); got != want {
+				out = append(out, mismatch{What: "stored-groups-differ-from-model", Frame: e.Frame, Query: e.Q.Label, Slot: -1, Got: got, Want: want, Where: desc})
+				continue
+			}
+		}
 		want := witnessed(ref, w, acc)
 		st.Evals++
+		if e.Facts != nil && e.dependsOnChange(b, ref, acc, want) {
+			st.FactsDep++
+		}
 		if st.Contexts != nil {
 			st.Contexts[e.Sit] = struct{}{}
 		}
